@@ -10,7 +10,7 @@ KNOWN = {}
 def run(ctx):
     def extra(ctx):
         # requests served while a block is being processed: the controlled-schedule exploration on the real tower
-        c10.conc_probe(ctx, "C02", set())
+        c10.conc_probe(ctx, "C02", {"sends"})
     return tower_common.check(ctx, "C02", TARGETS, MON, KNOWN, extra_run=extra)
 
 
